@@ -58,8 +58,9 @@ def check(ctx):
             expect_term(ctx, "C14.1", "literal/" + v, arm, t, e, w)
     # C14.2 marker name agreement with the generator
     gen_names = set()
-    sf = q.fn1(P, "CompositeIR::struct_field_tokens", "scale_typegen")
-    if sf is not None:
+    for c_, sf in P.all_bodies(("scale_typegen",)):
+        if "body" not in sf or "::type_ir::" not in sf["path"] or q.derived(sf):
+            continue            # the generator's token emitters (whichever function of the IR module holds the marker template)
         for node, items, kind, parent in T.find_templates(sf["body"]):
             text = T.render_pos(items)
             m = re.fullmatch(r"#\w+ pub (\w+) : #\w+", text)
